@@ -208,6 +208,7 @@ def construction(rep, strings, flags, specials):
                 if "work" not in r:
                     raise Machinery("no compile-work count for special %s" % it["name"])
                 rec["work"] = r["work"]
+                it["work"] = r["work"]
                 if "numrule" in it:
                     rec["numrule"], rec["payload"] = it["numrule"], it["payload"]
                 else:
@@ -370,7 +371,8 @@ def show_cons(it):
 
 
 def report(rep, it, chan, out, cls, dev, why):
-    rep.mismatch("%s [%s]" % (show_cons(it), chan), {"expected": cls, "actual": out, "why": why, "case": {"p": it["p"][:80], "fl": it.get("fl", "")}}, dev=dev)
+    rep.mismatch("%s [%s]" % (show_cons(it), chan), {"expected": cls, "actual": out, "why": why, "case": {"p": it["p"][:80], "fl": it.get("fl", "")},
+                                                                "work(nodes visited, emitted, longest program seen, peak RSS growth KB)": it.get("work")}, dev=dev)
 
 
 # ------------------------------------------------------------------------------------------------
@@ -378,7 +380,8 @@ def cfg_label(c):
     d = ", deadline %d steps" % c["deadline"] if c["deadline"] else ""
     if c["mode"] == "api":
         return "api poll_interval=%d%s" % (c["interval"], d)
-    return "script %s%s /%s%s" % (c["op"], " in try/catch" if c["form"] == "try" else "", wire.from_units(c["fl"]), d)
+    how = {"regexp": "", "string": " with the pattern as a string", "strobj": " with the pattern as a String object"}[c.get("arg", "regexp")]
+    return "script %s%s%s /%s%s" % (c["op"], how, " in try/catch" if c["form"] == "try" else "", wire.from_units(c["fl"]), d)
 
 
 def matching(rep, families):
@@ -388,7 +391,7 @@ def matching(rep, families):
     for f in sorted(families, key=lambda f: f["fam"]):
         for c in sorted(f["runs"], key=lambda c: json.dumps(c, sort_keys=True)):
             for n in sorted(c["lens"]):
-                cfg = {k: c[k] for k in ("mode", "interval", "op", "fl", "form", "deadline")}
+                cfg = {k: c[k] for k in ("mode", "interval", "op", "fl", "form", "deadline", "arg")}
                 cases.append({"id": len(cases), "fam": f["fam"], "src": f["src"], "unit": f["unit"], "tail": f["tail"], "n": n, "cfg": cfg,
                               "cap": caps[c["cap"]], "wall": 600.0})
     rep.spaces.append({"space": "matching families (long-run and short-run) x subject lengths x run configurations (package API x poll interval, "
